@@ -85,14 +85,16 @@ MapInd(m, inst) ==
 \* the instant lies in event indices n+1 .. n+d
 Crossed(d) == phas /\ ((pinst - Counter(n) - 1) + 65536) % 65536 < d
 
-\* the peripheral listens to the d-th next connection event on data channel ch
+\* the peripheral listens to the d-th next connection event: map in force, unmapped channel, data channel
+EvMap(d) == IF Crossed(d) /\ ValidMap(pmap) THEN pmap ELSE cmap
+EvUnm(d) == (last + d * chop) % NumCh
+EvCh(d)  == Remap(EvMap(d), EvUnm(d))
+
 Event(d, ch) ==
     /\ chop # 0 /\ d >= 1
-    /\ LET newmap == IF Crossed(d) /\ ValidMap(pmap) THEN pmap ELSE cmap
-           u      == (last + d * chop) % NumCh
-       IN  /\ ch = Remap(newmap, u)
-           /\ cmap' = newmap
-           /\ last' = u
+    /\ ch = EvCh(d)
+    /\ cmap' = EvMap(d)
+    /\ last' = EvUnm(d)
     /\ n' = n + d
     /\ phas' = (phas /\ ~Crossed(d))
     /\ UNCHANGED <<chop, pmap, pinst>>
@@ -104,13 +106,13 @@ Next == \/ chop = 0 /\ \E m \in Maps, h \in Hops : Reset2(m, h, Valid(m, h))
         \/ chop # 0 /\ \E m \in {AllCh, {5}}, h \in {0, 7} : Reset2(m, h, Valid(m, h))    \* new connection / refused request
         \/ \E m \in UMaps : Reset1(m, ValidMap(m))
         \/ \E m \in UMaps, k \in {1, 3} : MapInd(m, Counter(n + k))
-        \/ \E d \in Steps : InBound(n + d) /\ \E ch \in AllCh : Event(d, ch)
+        \/ \E d \in Steps : InBound(n + d) /\ Event(d, EvCh(d))
 
 Spec == Init /\ [][Next]_vars
 
 (* ------------------------------ sanity of the transcription ----------------------- *)
 \* the channel of every event is a used channel of the map in force
-InMap        == [][n' > n => \E ch \in cmap' : Event(n' - n, ch)]_vars
+InMap        == [][n' > n => (EvCh(n' - n) \in cmap' /\ Event(n' - n, EvCh(n' - n)))]_vars
 \* with all 37 channels used the algorithm is the identity on the unmapped channel
 FullIdentity == [][(n' > n /\ cmap' = AllCh) => Event(n' - n, last')]_vars
 \* recursion = closed form by event index; the sequence has period 37 (this is the table the code keeps)
